@@ -93,6 +93,29 @@ def _fnpair_job():
                 rec.update({"values": a["values"] + fa["values"], "runs": a["runs"], "problems": a["problems"] + fa["problems"], "unobserved": a["unobserved"] or fa["unobserved"], "events": a["events"],
                             "function_calls_observed": fa["calls"], "unobserved_scopes": 0})
                 out.append(rec)
+    # dtype-polymorphic bodies: two call sites with one shape and different element types / different shapes
+    import jax
+    import numpy as np
+
+    from harness import userfns as UF
+
+    xa = ((np.arange(6) - 2.5) / 2.0).reshape(2, 3).astype(np.float32)
+    for nm in ("fn_poly_square", "fn_poly_square_unique"):
+        f = getattr(UF, nm)
+        for label, second in (("dtype", (np.arange(6) - 3).reshape(2, 3).astype(np.int32)), ("shape", ((np.arange(12) % 5 - 2.0) / 4.0).reshape(4, 3).astype(np.float32))):
+            rec = {"key": f"fnpoly::{nm}::{label}", "status": "ok"}
+            try:
+                model = jax2onnx.to_onnx(lambda a, b, _n=nm: (getattr(UF, _n)(a), getattr(UF, _n)(b)), [jax.ShapeDtypeStruct(xa.shape, xa.dtype), jax.ShapeDtypeStruct(second.shape, second.dtype)])
+            except Exception:  # noqa: BLE001
+                rec["status"] = "export_failed"
+                out.append(rec)
+                continue
+            feeds = {vi.name: x for vi, x in zip(model.graph.input, (xa, second))}
+            a = annotation_check(model, [feeds])
+            fa = function_annotation_check(model, [feeds])
+            rec.update({"values": a["values"] + fa["values"], "runs": a["runs"], "problems": a["problems"] + fa["problems"], "unobserved": a["unobserved"] or fa["unobserved"], "events": a["events"],
+                        "function_calls_observed": fa["calls"], "unobserved_scopes": 0})
+            out.append(rec)
     return out
 
 
